@@ -14,7 +14,15 @@
     `look` — a lower bound on the number of unread bytes that are certainly in the buffer
     whatever the schedule (raised by `peek`/`peekTwo`, lowered by consumption),
     `behind` — the bytes of the multi-byte rune just read while they are certainly still in the
-    buffer right before the cursor (what `newLit` re-slices).
+    buffer right before the cursor (what `newLit` re-slices),
+    `ok` — cleared by the first operation that steps outside the client protocol under which the
+    chunked byte source provably agrees with this machine (the protocol is *defined* as
+    "`ok` is still set at the end of the run"):
+      - `peekTwo` while no unread byte is certainly buffered (`look = 0`) and input remains,
+      - `zshNumRange` and the stop-word test (they look at whatever the buffer happens to hold),
+      - `rune` deciding about backquote unescaping after a backslash without a buffered byte,
+      - `newLit` of a multi-byte rune that is not the rune just read,
+      - `nextPos` after an error, `endLit` with fewer literal bytes than the current rune is wide.
   Core Lean only.
 -/
 import ShVerif.Model.L2ByteSrc
@@ -39,6 +47,7 @@ structure LSt where
   stopPat : List Byte
   look : Nat                -- ghost
   behind : Option (List Byte) -- ghost (reversed)
+  ok : Bool                 -- ghost
 deriving Repr
 
 namespace LSt
@@ -46,7 +55,7 @@ namespace LSt
 def init (input : List Byte) (stopPat : List Byte := []) : LSt :=
   { rest := input, consumed := 0, line := 1, col := 1, r := 0, w := 0, readEOF := false,
     readErr := false, buf := none, lit := none, openBq := 0, openBqDbl := 0, lastBqEsc := 0,
-    err := none, stopPat, look := 0, behind := none }
+    err := none, stopPat, look := 0, behind := none, ok := true }
 
 /-- a `fill()` call made when the reader has nothing more to deliver -/
 def fillE (a : LSt) : LSt :=
@@ -83,6 +92,7 @@ def peek (a : LSt) : Nat × LSt :=
 
 /-- the state effect of `peekTwo()` called with at least one byte buffered (or at the end) -/
 def peekTwoEff (a : LSt) : LSt :=
+  let a := { a with ok := a.ok && (a.look ≥ 1 || a.rest.isEmpty) }
   let a := match a.rest with
     | _ :: _ :: _ => a
     | _ => a.fillE
@@ -98,10 +108,14 @@ def peekTwo (a : LSt) : Nat × Nat × LSt :=
 /-- the *intended* `zshNumRange`: scan the logical input -/
 def zshNum (a : LSt) : Bool × LSt :=
   let a := a.peekEff
-  (St.zshScan a.rest, a)
+  (St.zshScan a.rest, { a with ok := false })
 
 def nextPos (a : LSt) : Int × Nat × Nat :=
   ((a.consumed : Int) - (a.w : Int), a.line, a.col)
+
+/-- the `pos` operation of a client: `nextPos`, outside the protocol after an error -/
+def pos (a : LSt) : (Int × Nat × Nat) × LSt :=
+  (a.nextPos, { a with ok := a.ok && a.err.isNone })
 
 def errPass (a : LSt) (e : Err) : LSt :=
   match a.err with
@@ -137,7 +151,8 @@ def runeLoop : Nat → Nat → LSt → LSt
           if pk == 10 then runeLoop fuel bq { a with col := a.col + 1 } else tail a
         else if b == 92 then
           let afterEsc (a : LSt) : LSt :=
-            let a := { a with readEOF := false }
+            let a := { a with readEOF := false,
+                              ok := a.ok && (a.openBq == 0 || a.look ≥ 1 || a.rest.isEmpty) }
             match a.rest with
             | c :: _ =>
               if a.openBq > 0 && ((bq < a.openBq && St.bquoteEscaped c) || (bq < a.openBqDbl && c == 34)) then
@@ -183,17 +198,21 @@ def runesUpTo : Nat → Nat → LSt → Nat × LSt
 def newLit (a : LSt) (r : Nat) : LSt :=
   if r < 0x80 then { a with lit := some [UInt8.ofNat r] }
   else if r == runeEOF || r == escNewl then { a with lit := some [] }
-  else { a with lit := some (a.behind.getD []) }
+  else
+    match a.behind with
+    | some l => { a with lit := some l, ok := a.ok && decide (runeLen r = (l.length : Int)) }
+    | none => { a with lit := some [], ok := false }
 
 def endLit (a : LSt) : List Byte × LSt :=
   let l := a.lit.getD []
   if a.r == runeEOF || a.r == escNewl then (l.reverse, { a with lit := none })
-  else ((l.drop a.w).reverse, { a with lit := none })
+  else ((l.drop a.w).reverse, { a with lit := none, ok := a.ok && decide (a.w ≤ l.length) })
 
 /-- the *intended* stop-word test: the bytes of the rune just read followed by the logical input -/
 def stopAt (a : LSt) (r : Nat) : Bool × LSt :=
   let own : Option (List Byte) :=
     if r < 0x80 then some [UInt8.ofNat r] else a.behind.map List.reverse
+  let a := { a with ok := false }
   match own with
   | none => (false, a)
   | some o =>
